@@ -1,10 +1,13 @@
-"""Lehmer gcd (integer/src/gcd/lehmer.rs), C12.  Annotated copies: contracts/annot/integer/lehmer/, vocabulary + lemmas:
-contracts/lib/leh_*.rs.  Bottom-up, one small unit per layer; upper layers see the lower ones through //@@ SIG."""
+"""Lehmer gcd (integer/src/gcd/lehmer.rs + the two entry points of integer/src/gcd/mod.rs), C12.  Annotated copies:
+contracts/annot/integer/lehmer/, vocabulary + lemmas: contracts/lib/leh_*.rs.  Bottom-up, one small unit per layer; upper layers see
+the lower ones through //@@ SIG.  (Found while building: lehmer_guess tested `t + r > xbar - c` in its second half step; Jebelean's
+condition is `xbar - b`; gcd_ext returned wrong cofactors -- repaired in /repo 0fb363c, the exact condition is now part of the contract.)"""
 VERUS = {
     # lehmer_guess / lehmer_guess_dword: leh_guess_post -- determinant a*d - b*c == 1, 1 <= a, d and b, c <= SignedWord::MAX, identity on
     # failure (b == 0), Lehmer / Jebelean margins  a*X - b*Y >= b,  d*Y - c*X >= c,  a*X - b*Y + a <= Y,  d*Y - c*X + d <= Y
-    # (==> lemma_leh_apply: for EVERY (x, y) with leading parts (X, Y): 1 <= a x - b y <= y, 1 <= d y - c x <= y); no overflow in the
-    # word arithmetic of the loop (proved from X == d*xbar + b*ybar, Y == c*xbar + a*ybar), termination
+    # (==> lemma_leh_apply: for EVERY (x, y) with leading parts (X, Y): 1 <= a x - b y <= y, 1 <= d y - c x <= y), and leh_guess_exact:
+    # the row updated last satisfies Jebelean's EXACT condition (==> the two results are consecutive Euclid remainders, their order
+    # is known: lemma_leh_order / lemma_leh_order2); no overflow in the word arithmetic of the loop, termination
     'int_leh_guess': {'file': 'int_leh_guess.rs', 'w32': True},
     # lehmer_step: val(x') == a x - b y, val(y') == d y - c x (given 0 <= both < B^len(y): from lemma_leh_apply), all debug assertions
     # incl. `y_carry == c * x_top`, `cx == 0`; lehmer_ext_step: valn(x', len) + carry0 * B^len == a x + b y, same for (c, d);
@@ -17,14 +20,26 @@ VERUS = {
     # gcd_in_place: the result words (length ret.0, in rhs if ret.1 else lhs) hold THE gcd of the operands (gcdo_is_gcd: positive common
     # divisor divisible by every common divisor); loop invariant "same common divisors as (lhs, rhs)", x >= y normalized; terminates
     'int_leh_gcd': {'file': 'int_leh_gcd.rs', 'w32': True},
+    # gcd_ext_in_place: g = gcd(lhs, rhs) in rhs[..ret.0], |b| in lhs[..ret.1], a*lhs + (ret.2 * |b|)*rhs == g for some a
+    # (inplace_gcd_ext_post); invariants: same common divisors, lhs == T1*x + T0*y, signed Bezout relations of x and y (ghost cofactors
+    # of lhs), T0 <= T1 (from the exact guess), cofactor buffers zero above their lengths; every slice index / carry word /
+    # `debug_assert_zero!` proved; terminates.   (loop body needs 30-50M rlimit units: 'rlimit' gives 3x margin)
+    'int_leh_gcd_ext': {'file': 'int_leh_gcd_ext.rs', 'w32': True, 'rlimit': 150},
+    # gcd/mod.rs gcd_in_place / gcd_ext_in_place: the entry points gcd_ops.rs calls (forwarders, same contracts)
+    'int_leh_mod': {'file': 'int_leh_mod.rs', 'w32': True},
 }
 
 PROP_UNITS = {
-    'C12': {'verus': ['int_leh_guess', 'int_leh_step', 'int_leh_top', 'int_leh_gcd'],
-            'undecided': ['int_leh_gcd proves lehmer.rs gcd_in_place with the contract that unit int_gcd_ops still ASSUMES in '
-                          'lib/gcdo_ops_stubs.rs (same text plus the resource precondition 2 * lhs.len() <= usize::MAX); trusted there: '
-                          'primitive Gcd::gcd for Word / DoubleWord, cmp::cmp_in_place (numeric order of normalized words), '
-                          'primitive.rs highest_dword (get_unchecked), DoubleWord::leading_zeros meaning, <[T]>::split_last, '
-                          'core::mem::replace, Ordering::is_le; debug assertion `cmp_in_place(lhs, rhs).is_ge()` (exec call) dropped: '
-                          'it is the precondition val(lhs) > val(rhs)']},
+    'C12': {'verus': ['int_leh_guess', 'int_leh_step', 'int_leh_top', 'int_leh_gcd', 'int_leh_gcd_ext', 'int_leh_mod'],
+            'undecided': ['int_leh_gcd / int_leh_gcd_ext / int_leh_mod prove gcd/mod.rs + lehmer.rs gcd_in_place and gcd_ext_in_place with the '
+                          'contracts that unit int_gcd_ops still ASSUMES in lib/gcdo_ops_stubs.rs `mod gcd_lehmer_stub` (same text plus the '
+                          'resource preconditions 2 * lhs.len() (+ 2) <= usize::MAX; int_gcd_ops verifies unchanged when the two stubs are '
+                          'replaced by `//@@ SIG integer/lehmer/mod_gcd_in_place.rs` / `mod_gcd_ext_in_place.rs`: tried). Trusted there: '
+                          'primitive Gcd::gcd for Word / DoubleWord (lib/gcdo_ops_stubs.rs) and ExtendedGcd::gcd_ext for Word '
+                          '(lib/leh_ext_stubs.rs: the contract proved in unit base_gcd PLUS the zero-operand clause gcd_ext(0, y) == (y, 0, 1), '
+                          'which that unit does not state yet), cmp::cmp_in_place (numeric order of normalized words), primitive.rs '
+                          'highest_dword (get_unchecked), DoubleWord::leading_zeros meaning, <[T]>::split_last / fill, unsigned_abs, '
+                          'core::mem::replace, Ordering::is_le, Memory::allocate_slice_fill (scratch SIZING not verified); the debug '
+                          'assertions `cmp_in_place(lhs, rhs).is_ge()` (exec call) and `lhs.last().unwrap() != &0` are dropped: they are the '
+                          'preconditions val(lhs) > val(rhs) / top words non-zero; memory_requirement_* (Layout arithmetic) not under contract']},
 }
